@@ -174,8 +174,10 @@ func (a *Application) filterModelsByProvider(ctx context.Context, models []*doma
 		// Models can be available from multiple sources. Check if any of them
 		// match our provider constraint.
 		hasProvider := false
+		sourceKnown := false
 		for _, source := range model.SourceEndpoints {
 			if endpointType, ok := endpointTypes[source.EndpointURL]; ok {
+				sourceKnown = true
 				normalisedType := NormaliseProviderType(endpointType)
 				if providerProfile.IsCompatibleWith(normalisedType) {
 					hasProvider = true
@@ -183,8 +185,11 @@ func (a *Application) filterModelsByProvider(ctx context.Context, models []*doma
 				}
 			}
 		}
-		// Model aliases provide another way to determine provider association
-		if !hasProvider {
+		// Model aliases provide another way to determine provider association, but only when
+		// the endpoints the model currently comes from cannot tell us: aliases outlive the
+		// listing they came from, so a model an ollama endpoint has since dropped (and a vllm
+		// endpoint still serves) would otherwise stay listed under /olla/ollama/
+		if !hasProvider && !sourceKnown {
 			for _, alias := range model.Aliases {
 				normalisedSource := NormaliseProviderType(alias.Source)
 				if providerProfile.IsCompatibleWith(normalisedSource) {
